@@ -92,6 +92,8 @@ sites! {
     57 => KNUTH_Q0_RHAT_EQ_B, "knuth.q0.rhat_eq_b";
     58 => KNUTH_Q1_EQ, "knuth.q1.eq";
     59 => KNUTH_Q0_EQ, "knuth.q0.eq";
+    60 => KNUTH_Q1_EST_GT_B, "knuth.q1.est_gt_b";
+    61 => KNUTH_Q0_EST_GT_B, "knuth.q0.est_gt_b";
 }
 
 #[allow(clippy::declare_interior_mutable_const)]
